@@ -802,6 +802,16 @@ pub fn themed_setup(rng: &mut Rng) -> Pos {
                     let pc = [Piece::Knight, Piece::Bishop, Piece::Queen][rng.below(3)];
                     put_if_empty(&mut p, sq, pc, if rng.chance(1, 2) { t } else { o });
                 }
+                if rng.chance(1, 2) {
+                    // the opponent has just made a double pawn step: castling must clear that target
+                    let f = rng.below(8);
+                    let (pawn, mid) = if o == Color::Black { (32 + f, 40 + f) } else { (24 + f, 16 + f) };
+                    let orig = if o == Color::Black { 48 + f } else { 8 + f };
+                    if p.cells[pawn].is_none() && p.cells[mid].is_none() && p.cells[orig].is_none() {
+                        p.cells[pawn] = Some((Piece::Pawn, o));
+                        want_ep = Some(mid);
+                    }
+                }
             }
             _ => {
                 // promotions: the mover's pawns one step from the last rank, enemy pieces on it
@@ -1084,6 +1094,28 @@ fn epfamilies(e: &mut Exec) {
             fams.push((with_ep, without));
         }
     }
+    // a capturer between two pawns that double-step in either order: the two final positions differ
+    // ONLY in the file of the en-passant target (and in which capture is legal)
+    for file in 1..7u8 {
+        let (l, r) = (file - 1, file + 1);
+        let spare = (0..8u8).find(|s| (*s as i32 - file as i32).abs() > 2).unwrap();
+        // black capturer walks to rank 4 while white waits; then white double-steps l then r / r then l
+        let pre = vec![format!("{}2{}3", f(spare), f(spare)), format!("{}7{}5", f(file), f(file)), format!("{}3{}4", f(spare), f(spare)), format!("{}5{}4", f(file), f(file))];
+        let wait_b = format!("{}7{}6", f(spare), f(spare));
+        let mut a = pre.clone();
+        a.extend(vec![format!("{}2{}4", f(l), f(l)), wait_b.clone(), format!("{}2{}4", f(r), f(r))]);
+        let mut b = pre.clone();
+        b.extend(vec![format!("{}2{}4", f(r), f(r)), wait_b.clone(), format!("{}2{}4", f(l), f(l))]);
+        fams.push((a, b));
+        // white capturer on rank 5, black double-steps on both sides
+        let pre = vec![format!("{}2{}4", f(file), f(file)), format!("{}7{}6", f(spare), f(spare)), format!("{}4{}5", f(file), f(file))];
+        let wait_w = format!("{}2{}3", f(spare), f(spare));
+        let mut a = pre.clone();
+        a.extend(vec![format!("{}7{}5", f(l), f(l)), wait_w.clone(), format!("{}7{}5", f(r), f(r))]);
+        let mut b = pre.clone();
+        b.extend(vec![format!("{}7{}5", f(r), f(r)), wait_w.clone(), format!("{}7{}5", f(l), f(l))]);
+        fams.push((a, b));
+    }
     for (k, (a, b)) in fams.iter().enumerate() {
         let order: [&Vec<String>; 2] = if k % 2 == 0 { [a, b] } else { [b, a] };
         for line in order {
@@ -1303,7 +1335,7 @@ fn searches(e: &mut Exec, rng: &mut Rng, kv: &Args, positions: &[(String, Pos)])
             let d = *depths.iter().max().unwrap();
             e.exec(&format!("sctx {}", d));
             let mut q = p.clone();
-            let mut hs: Vec<u8> = vec![rng.below(60) as u8, (100 - d as usize + rng.below(d as usize + 1)).min(99) as u8, 99, (96 + rng.below(4)) as u8, rng.below(90) as u8];
+            let mut hs: Vec<u8> = vec![rng.below(60) as u8, (100 - d as usize + rng.below(d as usize + 1)).min(99) as u8, 99, (96 + rng.below(4)) as u8, rng.below(90) as u8, 100, (101 + rng.below(60)) as u8];
             if rng.chance(1, 2) {
                 hs.reverse();
             }
@@ -1315,6 +1347,18 @@ fn searches(e: &mut Exec, rng: &mut Rng, kv: &Args, positions: &[(String, Pos)])
                 e.tally("searches-same-context-other-clock");
             }
             e.exec(&format!("pos {}", p.line()));
+            // a position the caller has registered three times still has its legal moves
+            for _ in 0..3 {
+                e.exec("count");
+            }
+            let n = pools[rng.below(pools.len())];
+            e.exec(&format!("sctx {}", d));
+            e.exec(&format!("search {}", n));
+            e.exec("snap");
+            for _ in 0..3 {
+                e.exec("uncount");
+            }
+            e.tally("searches-after-third-registration");
         }
         if game_plies > 0 {
             // one context reused across the successive searches of a game
@@ -1651,6 +1695,8 @@ fn perfts(e: &mut Exec, rng: &mut Rng, kv: &Args, positions: &[(String, Pos)]) {
             let n = pools[rng.below(pools.len())];
             e.exec(&format!("perft {} {}", d, n));
         }
+        // two independent counts overlapping in time in one process (own boards, own generators)
+        e.exec(&format!("perft2 {} {}", 2.min(maxd), pools[rng.below(pools.len())]));
         // the split of the root moves over the workers: every small pool size at depth 1
         for n in 1..=8usize {
             e.exec(&format!("perft {} {}", 1.min(maxd), n));
